@@ -256,6 +256,19 @@ protected:
     return true;
   }
 
+  // ── Transport-level close ──────────────────────────────────────────────
+
+  /// \brief The connection is gone (peer dropped TCP, closeSession() completed):
+  /// release the per-session state. Without this an entry whose close handshake
+  /// never ran (TCP drop in the middle of a fragmented message, after a 1007
+  /// close, ...) kept its receive and fragment buffers - up to maxFrameSize
+  /// bytes per dropped connection - for the lifetime of the server.
+  void onSessionClosed(SessionId sid) override
+  {
+    std::lock_guard<std::mutex> lock(_wsMutex);
+    _sessions.erase(sid);
+  }
+
   // ── Upgraded Data Handler ──────────────────────────────────────────────
 
   void onUpgradedData(SessionId sid, const std::uint8_t* data,
